@@ -34,7 +34,9 @@ R = Rules(
         "hands out a pair.  C11.c: the nonce value returned by "
         "_construct_nonce equals RFC 8613 section 5.2; a fresh partial IV is the 5-byte big-endian sequence number, sent without leading zeros.  "
         "C11.d: on every path of _compress the option emitted equals the RFC 8613 section 6.1 encoding of exactly the fields present, on "
-        "every returning path of _uncompress the fields returned are exactly the windows of the option the flag bits announce; reserved bits are refused.  C11.e: the "
+        "every returning path of _uncompress the fields returned are exactly the windows of the option the flag bits announce (local helpers of the reader -- a nested def "
+        "advancing a cursor through nonlocal, a lambda, a functools.partial -- are executed where they are called; a field that is a content-dependent rewrite "
+        "of option bytes such as a strip is not the window); reserved bits are refused.  C11.e: the "
         "exception-escape set of _extract_encrypted0/_uncompress and of the raising sites of unprotect before "
         "decryption is inside ProtectionInvalid + NotAProtectedMessage; whether a single byte read of the option can raise IndexError is decided by the symbolic "
         "reader (the read is a decision of the path: in bounds by the facts known when it is evaluated, or an IndexError that must meet a handler).  C11.f: on every feasible path to decrypt a present KID / KID context was compared "
@@ -1795,6 +1797,24 @@ def _reader_results(ctx, prog, consts):
                 got[name] = "present"
                 continue
             w = Rd.window(val)
+            rw = Rd.rewrite_of(val) if w is None else None
+            if rw is not None:
+                # A content-dependent rewrite of a slice of the option (strip family with an absent / non-empty constant argument,
+                # removeprefix / removesuffix, replace, case mapping): for some option contents the result is not the slice, so
+                # the field handed on (into the AAD, the nonce, the request identifiers) is not the literal field of the option
+                # and distinct options decode alike.  Decided on the value, whatever local or helper it travelled through.
+                got[name] = "a rewrite (.%s) of option bytes, not the literal bytes of the option: %s" % (rw[0], kit.txt(val)[:60])
+                base = rw[1]
+                while Rd.rewrite_of(base) is not None:
+                    base = Rd.rewrite_of(base)[1]
+                bw = Rd.window(base)
+                if bw is not None and bw[1] is not None:
+                    # the slice that was rewritten is still a field cut out of the option: it needs its bounds check (C11.h)
+                    res["bounded_fields"].add(name)
+                    if not kit.entails_ge0(st["int_facts"], Rd.LEN - bw[1]):
+                        res["bounds"].append((p, "%s is derived from option[%r:%r] without a check that the option has %r bytes; known: %s" % (
+                            name, bw[0], bw[1], bw[1], sorted(map(repr, st["int_facts"])))))
+                continue
             if w is None:
                 # a value produced by code the executor could not follow (a call that was not expanded) is a refusal, not a verdict
                 opaque = [x for x in ast.walk(val) if isinstance(x, ast.Call) and not kit._is_len(x)]
@@ -3139,3 +3159,11 @@ R.seed("C11.k", F_OS, '        self.recipient_key = self._kdf(\n            mast
        '        self.recipient_key = self._kdf(\n            master_salt, master_secret, self.sender_id, "Key", self.alg_aead\n        )\n\n        self.common_iv',
        "the recipient key is derived for the sender ID: the two ends no longer agree on the keys")
 R.seed("C11.k", F_OS, "            algorithm=self.hashfun,\n            length=l,", "            algorithm=hashes.SHA256(),\n            length=l,", "the KDF ignores the hash function configured for the context")
+# seeds of the eighth pass: fields that are rewritten on their way out of the option, and fields cut by a local helper
+R.seed("C11.d", F_OS, "            unprotected[COSE_PIV] = tail[:pivsz]\n", "            unprotected[COSE_PIV] = tail[:pivsz].lstrip(b\"\\0\") or b\"\\0\"\n",
+       "the partial IV is canonicalised while decoding: a zero-extended partial IV decodes like the minimal one")
+R.seed("C11.d", F_OS, "            unprotected[COSE_KID_CONTEXT] = tail[:s]\n", "            unprotected[COSE_KID_CONTEXT] = tail[:s].strip()\n",
+       "the kid context is stripped of whitespace bytes while decoding")
+R.seed("C11.h", F_OS, "            if len(tail) < pivsz:\n                raise DecodeError(\"Partial IV announced but not present\")\n            unprotected[COSE_PIV] = tail[:pivsz]\n",
+       "            cut = lambda n: tail[:n]\n            unprotected[COSE_PIV] = cut(pivsz)\n",
+       "the partial IV is cut by a local helper that has no bounds check")
